@@ -738,6 +738,7 @@ class PCAVectorModel(MeanLinearVectorModel):
             self._eigenvalues,
             self.n_samples,
             m_a=self._mean,
+            centred=self.centred,
             f=forgetting_factor,
         )
 
